@@ -16,7 +16,7 @@ import (
 
 func init() {
 	register("C10", core.Spec{
-		Decides: "for the object file compiled (never executed) from the C that the working tree's compiler generates for all of std/, in each build configuration: (1) no writable or thread-local data section of non-zero size other than read-only-after-relocation constant tables, no COMMON symbols; (2) undefined symbols ⊆ {memcpy, memmove, memset, memcmp, calloc, free} with calloc/free referenced only from *__alloc functions; (3) every exported function symbol of a generated package is a `pub` method of a `pub` struct (oracle: std/*.wuffs read through the Wuffs front end), or its initialize/alloc/sizeof helper, and every private method has a local symbol; (4) every pure method's C function takes a const receiver, contains no store through self and no const-stripping cast of self, and the object compiles with discarded-qualifier errors enabled; plus the front-end effect rules (parseAssignNode / parseExpr / tcheckExprCall / tcheckDot) on go/cfg; (5) hand-written templates define no non-const file-scope or static-local object",
+		Decides:    "for the object file compiled (never executed) from the C that the working tree's compiler generates for all of std/, in each build configuration: (1) no writable or thread-local data section of non-zero size other than read-only-after-relocation constant tables, no COMMON symbols; (2) undefined symbols ⊆ {memcpy, memmove, memset, memcmp, calloc, free} with calloc/free referenced only from *__alloc functions; (3) every exported function symbol of a generated package is a `pub` method of a `pub` struct (oracle: std/*.wuffs read through the Wuffs front end), or its initialize/alloc/sizeof helper, and every private method has a local symbol; (4) every pure method's C function takes a const receiver, contains no store through self and no const-stripping cast of self, and the object compiles with discarded-qualifier errors enabled; plus the front-end effect rules (parseAssignNode / parseExpr / tcheckExprCall / tcheckDot) on go/cfg; (5) hand-written templates define no non-const file-scope or static-local object",
 		NotDecided: "pure-ness for programs outside std beyond the front-end rules; writes through slices derived with wuffs_base__strip_const_from_u8_ptr are excluded at the Wuffs level by the effect rules, not at the C level; linker-level properties of a final executable",
 		Assumptions: []string{"gcc/clang, readelf, nm (binutils) report sections, symbols and relocations faithfully",
 			"-O0 -ffunction-sections -fdata-sections keeps every function and datum in its own section, so each relocation/section is attributed to one symbol",
@@ -27,7 +27,7 @@ func init() {
 
 type elfSection struct {
 	name, typ, flags string
-	size           int64
+	size             int64
 }
 
 var reSecHead = regexp.MustCompile(`^\s*\[\s*\d+\]\s+(.*)$`)
